@@ -101,7 +101,9 @@ def one_run(ctx, g, sc, pr, lib, path, spec, form, pool_factory, fault, ref, see
         if fault[1] > 1:
             ctx.count("fault:occurrence>1")
         want = hl.EXC_CLASSES[fault[2]]
-        if raised is None:
+        if raised is None and fault[0] == "os.path.exists":
+            ctx.count("stat failure swallowed by os.path.exists (by design of that function): only the no-leak clause applies")
+        elif raised is None:
             if rec.fired or in_worker:
                 ctx.violation(rel_a, g, inp, dict(returned=hl.out_brief(out) if out else None), dict(propagated=True),
                               f"a failure injected at {fault[0]} #{fault[1]} must reach the caller; the call returned "
@@ -355,6 +357,8 @@ def post(ctx):
     ]
     import histlib as hl
     for t in hl.instrument.TARGETS:
+        if t == "os.path.exists":
+            continue        # the repaired clean-up no longer asks whether the file exists: nothing to inject into
         need = 1 if t in ("JokerSamples.pack",) else 2
         ctx.require(f"faults injected at {t}", c[f"fault:{t}"], need)
     ctx.require("faults at a later occurrence (k>1)", c["fault:occurrence>1"], 10)
